@@ -674,6 +674,27 @@ def _ce_ens(c):
         # is running, completed or cancelled keeps its state
         "decision.schedules_pending_task": z3.Implies(z3.And(placed, z3.Or(st0 == VIRTUAL, st0 == RELEASED, st0 == SCHEDULED)), st1 == SCHEDULED),
         "decision.started_or_final_task_untouched": z3.Implies(z3.Or(st0 == RUNNING, st0 == COMPLETED, st0 == CANCELLED, st0 == EVICTED), st1 == st0),
+        # C03 (the task executes the strategy its scheduler chose LAST): whenever a placed decision is applied to a task
+        # that has not started, the task records exactly this decision -- also when it revises an earlier one and keeps
+        # its time and pool (seed C03-3): remaining time := runtime of the decision's strategy
+        "decision.task_records_this_decision": z3.Implies(
+            z3.And(placed, z3.Or(st0 == VIRTUAL, st0 == RELEASED, st0 == SCHEDULED)),
+            z3.And(
+                c.post.rd(task, TASK, "_scheduler_placement")[1] == pl,
+                c.post.rd(task, TASK, "_worker_pool_id")[1] == c.pre.rd(pl, PL, "_worker_pool_id")[1],
+                some(c.post.rd(task, TASK, "_remaining_time")[1]),
+                get(c.post.rd(task, TASK, "_remaining_time")[1]) == c.pre.rd(c.pre.rd(pl, PL, "_strategy")[1], "workload.strategy.ExecutionStrategy", "_runtime")[1],
+            ),
+        ),
+        # ... and the pending placement event cached for the task carries this decision and fires at the chosen time
+        "decision.pending_event_carries_this_decision": z3.Implies(
+            z3.And(placed, z3.Or(st0 == VIRTUAL, st0 == RELEASED, st0 == SCHEDULED)),
+            z3.And(
+                c.post.d_dom(FutureMap, fut(c.pre, s), tid(c.pre, task)),
+                c.post.rd(c.post.d_val(FutureMap, fut(c.pre, s), tid(c.pre, task)), EVENT, "_placement")[1] == pl,
+                us(ev_time(c.post, c.post.d_val(FutureMap, fut(c.pre, s), tid(c.pre, task)))) == us(ptime),
+            ),
+        ),
         # C02 / C03: a TASK_PLACEMENT event created here is for this task, carries this placement and fires at the chosen time
         "events.placement_at_chosen_time": z3.ForAll(
             [j],
